@@ -354,3 +354,13 @@ def classify_frame(f):
         sub = f.body[1] if len(f.body) > 1 else -1
         return ("notif", {"code": code, "sub": sub}, "notif(2,1)" if (code, sub) == (2, 1) else "notif(other)")
     return ("rr", None, "rr")
+
+
+def max_size_update():
+    """The largest legal message: a withdraw-only UPDATE of exactly 4096 octets."""
+    wd = ["10.%d.%d.%d/32" % (i // 65536, (i // 256) % 256, i % 256) for i in range(814)]
+    msg = rp.encode_update(wd, {}, [])
+    pad = {0: [], 1: ["0.0.0.0/0"], 2: ["11.0.0.0/8"], 3: ["11.1.0.0/16"], 4: ["11.1.1.0/24"]}
+    if 0 <= 4096 - len(msg) <= 4:
+        msg = rp.encode_update(wd + pad[4096 - len(msg)], {}, [])
+    return msg
